@@ -34,14 +34,20 @@ class ExecTimeout(Exception):
 
 @contextlib.contextmanager
 def time_limit(seconds):
+    """Limit on the CPU time of this process (ITIMER_PROF: independent of how loaded the machine is), with a wall-clock backstop of ten times the
+    limit for executions that wait on a child process."""
     def handler(signum, frame):
-        raise ExecTimeout("execution exceeded %ss" % seconds)
+        raise ExecTimeout("execution exceeded %ss of CPU time (or %ss of wall-clock time)" % (seconds, seconds * 10))
     old = signal.signal(signal.SIGALRM, handler)
-    signal.setitimer(signal.ITIMER_REAL, seconds)
+    oldp = signal.signal(signal.SIGPROF, handler)
+    signal.setitimer(signal.ITIMER_REAL, seconds * 10)
+    signal.setitimer(signal.ITIMER_PROF, seconds)
     try:
         yield
     finally:
+        signal.setitimer(signal.ITIMER_PROF, 0)
         signal.setitimer(signal.ITIMER_REAL, 0)
+        signal.signal(signal.SIGPROF, oldp)
         signal.signal(signal.SIGALRM, old)
 
 
